@@ -779,3 +779,52 @@ func pick(xs []int, i, v int) int {
 	}
 	return r + 1
 }
+
+// ---- closure conversion of a generator (symboltable's probe), effectful loop initialiser, ^= on words ----
+
+type ring struct {
+	m     int
+	slots []int
+}
+
+// walk: h, then (h+i*step) % m — the closure captures four words, writes two of them; m == 0 panics on the second call
+func (r *ring) walk(seed uint64, step uint64) func() int {
+	h := seed
+	h ^= (h >> 3) ^ (h >> 1)
+	m := uint64(r.m)
+	h1 := h & (m - 1)
+	var i, cur uint64
+	return func() int {
+		if i == 0 {
+			cur = h1
+		} else {
+			cur = (h1 + i*step) % m
+		}
+		i++
+		return int(cur)
+	}
+}
+
+// find: the generator's result is bound to a new variable and only ever called: in a loop header (initialiser and post
+// statement) and in plain statements after the loop
+func (r *ring) find(seed, step uint64, want int) (int, int, int) {
+	next := r.walk(seed, step)
+	n := 0
+	for i := next(); r.slots[i] != 0 && n < 12; i = next() {
+		if r.slots[i] == want {
+			return i, n, -1
+		}
+		n++
+	}
+	a := next()
+	b := next()
+	return a, n, b
+}
+
+func ringScript(m int, vals []int, seed, step uint64, want int) (int, int, int) {
+	r := &ring{m: m, slots: make([]int, m)}
+	for i, v := range vals {
+		r.slots[i] = v
+	}
+	return r.find(seed, step, want)
+}
